@@ -291,16 +291,26 @@ func (g *modGen) genFunc(i, nF, nG, nT int, nblocks []int, fname, gname, tname f
 	lbl := func(k int) string { return fmt.Sprintf("%%b%d", k) }
 	emit := func(format string, a ...interface{}) { fmt.Fprintf(&body, format+"\n", a...) }
 	// parameters: %a named, one unnamed (%0)
-	hdr := fmt.Sprintf("define i32 %s(i32 %%a, i32) %s personality i32 (...)* %s", fname(i), g.use("attr", fmt.Sprintf("#%d", r.intn(nAttr)), "func attr"), g.use("global", "@pers", "personality"))
+	second := "i32"
+	unnamedParam := "%0"
+	dupParam := g.def("local", fname(i)+":param %a")
+	if dupParam {
+		second = "i32 %a" // a second parameter with the name of the first; nothing else changes in meaning
+		unnamedParam = "%a"
+	}
+	hdr := fmt.Sprintf("define i32 %s(i32 %%a, %s) %s personality i32 (...)* %s", fname(i), second, g.use("attr", fmt.Sprintf("#%d", r.intn(nAttr)), "func attr"), g.use("global", "@pers", "personality"))
 	if r.chance(30) {
 		hdr += fmt.Sprintf(" !dbg %s", md())
 	}
 	emit("%s {", hdr)
 	next := 1 // next unnamed local ID (the unnamed parameter is %0)
+	if dupParam {
+		next = 0
+	}
 	emit("b0:")
 	next++ // none: b0 is named; placeholder to keep numbering simple
 	next--
-	xl := fmt.Sprintf("\t%%x = add i32 %s, %s", g.use("local", "%a", "operand"), g.use("local", "%0", "operand"))
+	xl := fmt.Sprintf("\t%%x = add i32 %s, %s", g.use("local", "%a", "operand"), g.use("local", unnamedParam, "operand"))
 	if g.def("local", fname(i)+":%x") {
 		emit("%s", xl)
 	}
@@ -352,6 +362,10 @@ func (g *modGen) genFunc(i, nF, nG, nT int, nblocks []int, fname, gname, tname f
 		default:
 			emit("\tbr label %s", g.use("label", lbl(k+1), "branch target"))
 		}
+	}
+	if g.def("local", fname(i)+":label %b1") {
+		emit("b1:")
+		emit("\tbr label %%exit")
 	}
 	emit("exit:")
 	emit("\t%%iv = invoke i32 %s(i32 %s) to label %s unwind label %s", g.use("global", "@ext", "invokee"), g.use("local", "%x", "invoke arg"), g.use("label", "%ok", "invoke normal"), g.use("label", "%lp", "invoke unwind"))
